@@ -467,7 +467,7 @@ impl Property for C08 {
         C08::case_strategy(tier)
     }
     fn budget(&self, tier: Tier) -> Budget {
-        Budget::new(tier.pick(2_400, 120_000), tier.pick(8, 16)).min_nontrivial(tier.pick(300, 10_000)).case_timeout(180)
+        Budget::new(tier.pick(6_000, 120_000), tier.pick(8, 16)).min_nontrivial(tier.pick(800, 10_000)).case_timeout(180)
     }
     fn rule(&self) -> String {
         "rows with 1-3 typed sort keys (small duplicate/NULL-heavy domains incl. NaN, ±0.0, ±inf, type boundaries), partitions, batch cuts, encodings; operator drawn from SortExec / TopK / SortPreservingMergeExec / PartialSortExec / PartitionedTopKExec / memory-limited external sort; \
@@ -495,6 +495,17 @@ impl Property for C08 {
         if let Op::Sort { fetch: Some(f), presorted, .. } = &case.op {
             if *f >= 1 && (*presorted as usize) < case.keys.len() && case.keys.iter().any(|k| k.ty == ColType::StructI32Utf8 && k.desc == k.nulls_first) {
                 return Some("topk-filter:struct-key:child-null-order".into());
+            }
+            // open finding: the same filter treats -0.0 = 0.0 while the sort order separates them
+            if *f >= 1 && (*presorted as usize) < case.keys.len() {
+                for (i, k) in case.keys.iter().enumerate() {
+                    if matches!(k.ty, ColType::F32 | ColType::F64) {
+                        let has = |code: u8| case.rows.iter().any(|r| r.k.get(i).copied().flatten().map(|c| c % POOL) == Some(code));
+                        if has(7) && has(8) {
+                            return Some("topk-filter:float-key:signed-zero".into());
+                        }
+                    }
+                }
             }
         }
         None
